@@ -172,8 +172,38 @@ func workload(seed uint64, udp bool) (r result) {
 	}
 	fmt.Fprintf(&sb, "session algs=%v/%v/%v;", sess.AuthenticationAlgorithm, sess.IntegrityAlgorithm, sess.ConfidentialityAlgorithm)
 	ops := 8 + p.intn(12)
+	// one command of every workload is answered with a completion code drawn from
+	// the whole byte (rare, command-specific and OEM codes included)
+	rare := byte(1 + p.intn(255))
+	if rare == 0xC0 || rare == 0xC3 {
+		rare = 0xC9
+	}
+	rareAt := 2 + p.intn(ops-2)
 	for i := 0; i < ops; i++ {
 		op := p.intn(7)
+		if i == rareAt {
+			if srv != nil {
+				srv.Lock()
+			}
+			b.Intercept = func(b *simbmc.BMC, rx *simbmc.Rx) {
+				if rx.Msg != nil && !rx.Msg.IsResponse() && rx.Sess != nil && len(rx.Replies) == 1 {
+					rx.Replies = []memnet.Out{b.Wrap(rx.Sess, b.ResponseFor(rx.Msg, rare, nil).Bytes())}
+				}
+			}
+			if srv != nil {
+				srv.Unlock()
+			}
+			_, err := sess.GetChassisStatus(ctx)
+			fmt.Fprintf(&sb, "chassis-with-code-%#x err=%v;", rare, err)
+			if srv != nil {
+				srv.Lock()
+			}
+			b.Intercept = nil
+			if srv != nil {
+				srv.Unlock()
+			}
+			continue
+		}
 		if i == 0 || i == ops/2 {
 			op = 2 // every workload walks the repository at least twice
 		} else if i == 1 {
@@ -249,40 +279,60 @@ func TestConcurrent(t *testing.T) {
 					base = base*6364136223846793005 + 1442695040888963407
 					seeds[i] = base
 				}
-				// reference: each workload alone
 				alone := make([]result, n)
-				for i, s := range seeds {
-					alone[i] = workload(s, i%2 == 0)
-					if alone[i].err != nil {
-						// against a conforming BMC a workload run on its own always
-						// succeeds; one retry rules out a lost loopback datagram
-						alone[i] = workload(s, i%2 == 0)
-					}
-					if alone[i].err != nil {
-						msg := fmt.Sprintf("workload %d (seed %d) fails even when run on its own, after other connections were used in this process: %v (state shared between connections)", i, s, alone[i].err)
-						ev.Violation("TestConcurrent", map[string]any{"n": n, "gomaxprocs": gp, "seeds": seeds, "worker": i}, msg)
-						t.Fatalf("%s", msg)
-					}
-				}
-				// concurrently
 				together := make([]result, n)
-				var wg sync.WaitGroup
-				var started int32
-				gate := make(chan struct{})
-				for i := range seeds {
-					wg.Add(1)
-					go func(i int) {
-						defer wg.Done()
-						atomic.AddInt32(&started, 1)
-						<-gate
-						together[i] = workload(seeds[i], i%2 == 0)
-					}(i)
+				runAlone := func() bool {
+					// reference: each workload alone
+					for i, s := range seeds {
+						alone[i] = workload(s, i%2 == 0)
+						if alone[i].err != nil {
+							// against a conforming BMC a workload run on its own always
+							// succeeds; one retry rules out a lost loopback datagram
+							alone[i] = workload(s, i%2 == 0)
+						}
+						if alone[i].err != nil {
+							msg := fmt.Sprintf("workload %d (seed %d) fails even when run on its own, after other connections were used in this process: %v (state shared between connections)", i, s, alone[i].err)
+							ev.Violation("TestConcurrent", map[string]any{"n": n, "gomaxprocs": gp, "seeds": seeds, "worker": i}, msg)
+							t.Errorf("%s", msg)
+							return false
+						}
+					}
+					return true
 				}
-				for atomic.LoadInt32(&started) < int32(n) {
-					runtime.Gosched()
+				runTogether := func() {
+					// concurrently
+					var wg sync.WaitGroup
+					var started int32
+					gate := make(chan struct{})
+					for i := range seeds {
+						wg.Add(1)
+						go func(i int) {
+							defer wg.Done()
+							atomic.AddInt32(&started, 1)
+							<-gate
+							together[i] = workload(seeds[i], i%2 == 0)
+						}(i)
+					}
+					for atomic.LoadInt32(&started) < int32(n) {
+						runtime.Gosched()
+					}
+					close(gate)
+					wg.Wait()
 				}
-				close(gate)
-				wg.Wait()
+				// the order alternates: state that a connection leaves behind in the
+				// package (caches filled on first use) must not matter either way
+				if rep%2 == 0 {
+					runTogether()
+					if !runAlone() {
+						t.FailNow()
+					}
+					ev.Label("order:together-first")
+				} else {
+					if !runAlone() {
+						t.FailNow()
+					}
+					runTogether()
+				}
 				ev.Eval()
 				overlap := 0
 				for i := range together {
@@ -318,5 +368,5 @@ func TestConcurrent(t *testing.T) {
 
 func TestCoverage(t *testing.T) {
 	ev.RequireLabels(t, 2, "overlapped:N=8:GOMAXPROCS=4")
-	ev.RequireLabels(t, 1, "concurrent-complete")
+	ev.RequireLabels(t, 1, "concurrent-complete", "order:together-first")
 }
